@@ -479,3 +479,17 @@ Theorem C07_example_parity_instance :
   atom_check (with_atom_label ex_st 2 false) ex_sq mp 1 true = Ok false.
 Proof. exact example_parity_instance. Qed.
 Print Assumptions C07_example_parity_instance.
+
+(* match_stereo=True of MoleculeIsomorphism.get_mapping, control flow only: WHICH embeddings get a fast mapping is decided by
+   get_fast_mapping (canonical stereo SMILES equality, C01) and enters the model as an observed input *)
+Theorem C07_ms_one_filtered : forall (B : Type) (beq : B -> B -> bool) fm cl (bd : list (Z * list (Z * B))),
+  ms_one beq true fm cl bd = Ok (match fm with Some (p :: r) => [p :: r] | _ => [] end).
+Proof. exact ms_one_filtered. Qed.
+Print Assumptions C07_ms_one_filtered.
+
+Theorem C07_ms_one_unfiltered : forall (B : Type) (beq : B -> B -> bool) p r cl (bd : list (Z * list (Z * B))) res,
+  ms_one beq false (Some (p :: r)) cl bd = Ok res ->
+  exists autos, get_automorphism_mapping beq cl bd = Ok autos /\
+    forall g, In g res <-> g = p :: r \/ exists a, In a autos /\ compose_fm (p :: r) a = Ok g.
+Proof. exact ms_one_unfiltered. Qed.
+Print Assumptions C07_ms_one_unfiltered.
